@@ -167,7 +167,10 @@ def check_2q(spec):
     err = _maxdiff(M, U)
     if err > TOL:
         eps = spec.get("eps")
-        if fam == "canon" and eps is not None and via != "multi" and cls is not None and nc < cls and err <= 8 * eps:
+        core = spec["core"]
+        if eps is None and len(core) == 2 and isinstance(core[1], float) and 0 < abs(core[1]) <= 1e-6:
+            eps = abs(core[1])  # parametrised gate at a tiny angle: distance from the identity (0-CNOT) class
+        if eps is not None and via != "multi" and (nc < cls if cls is not None else nc == 0) and err <= 8 * eps:
             # fewer CNOTs than the exact class needs and an error proportional to the distance from the lower class:
             # the numerical classification merged the input into the neighbouring class
             return bad(f"2q:class-merge:dist={eps:g}:cnots={nc}", {"err": err, "cnots": nc, "exact_class": cls}, f"error <= {TOL}")
